@@ -34,7 +34,7 @@ ASSUMPTIONS = [
     "django mode + `only`: visibility of tag-position variables in fill content is a wildcard",
     "iterating / passing on slot-data dicts and slot references is outside the domain (case skipped)",
 ]
-BOUNDS = {"quick": {"programs": 1500}, "thorough": {"programs": 30000}}
+BOUNDS = {"quick": {"programs": 4800}, "thorough": {"programs": 60000}}
 CFG = {"naming": "pool", "pool": ["x", "y", "z"], "probes": True, "errors": False, "isfilled": False, "max_nodes": 4, "extra_probe": "u"}
 
 _PROBE_RE = re.compile(r"\[p(\d+):([^\]\[]*)\]")
